@@ -280,7 +280,21 @@ pub fn record(kv: &Kv, out: &mut Out) {
                             let (len, bytes) = snap(&b);
                             out.line(&json!({"op": "p", "pos": pos, "bit": bit as u8, "res": res, "len": len, "bytes": bytes}));
                         }
-                        60..=74 => match b.read_bit() {
+                        60..=66 => {
+                            // patching several bits inside the written part (a reserved length field): half of the positions octet aligned
+                            let (var, src, so, n) = pick_copy(&mut rng, 8);
+                            if n == 0 || n > b.bit_len() {
+                                continue;
+                            }
+                            let mut pos = rng.gen_range(0..=b.bit_len() - n);
+                            if rng.gen_bool(0.5) {
+                                pos -= pos % 8;
+                            }
+                            let res = b.with_write_position_at(pos, |b| do_write(b, var, &src, so, n));
+                            let (len, bytes) = snap(&b);
+                            out.line(&json!({"op": "pw", "pos": pos, "var": var, "src": src, "so": so, "n": n, "res": res, "len": len, "bytes": bytes}));
+                        }
+                        67..=74 => match b.read_bit() {
                             Ok(bit) => out.line(&json!({"op": "rb", "res": "ok", "bit": bit as u8})),
                             Err(_) => out.line(&json!({"op": "rb", "res": "err", "bit": 0})),
                         },
